@@ -704,6 +704,8 @@ class Executor:
         raise Outside(f"assignment target {type(t).__name__}")
 
     def _store(self, st, base, sl, v, node, ev):
+        if hasattr(base, "sym_setitem"):
+            return base.sym_setitem(sl, v, ev, node)
         if isinstance(base, Row):
             raise Outside("store into matrix row outside a contract")
         if isinstance(base, Mat):
@@ -1137,32 +1139,38 @@ class Evaluator:
         raise Outside("unary op")
 
     def e_BoolOp(self, n):
-        vals = [self.eval(v) for v in n.values]  # NB: operands are side-effect free in the subset
+        # operands are evaluated left to right and evaluation stops as soon as a concretely decided operand settles the result
+        # (Python's short circuit); symbolic operands are all evaluated (they are side-effect free in the subset)
+        is_and = isinstance(n.op, ast.And)
+        vals = []
+        for vn in n.values:
+            v = self.eval(vn)
+            t = simp(Zb(v)) if not isinstance(v, (Arr, Prod)) else None
+            if t is (False if is_and else True) and not vals:
+                return v
+            if t is (False if is_and else True):
+                vals.append(v)
+                break
+            vals.append(v)
+        if len(vals) == 1:
+            return vals[0]
         if all(is_bool(v) for v in vals):
             bs = [Zb(v) for v in vals]
-            return simp(z3.And(*bs) if isinstance(n.op, ast.And) else z3.Or(*bs))
-        # value-returning and/or on non-bools: only when every operand's truthiness is decidable
-        if isinstance(n.op, ast.And):
-            cur = vals[0]
-            for v in vals[1:]:
-                t = simp(Zb(cur))
-                if t is True:
-                    cur = v
-                elif t is False:
-                    return cur
-                else:
-                    if is_bool(v) or True:
-                        return simp(z3.And(*[Zb(x) for x in vals]))
-            return cur
+            return simp(z3.And(*bs) if is_and else z3.Or(*bs))
+        # value-returning and/or: decide as far as the operands' truthiness is concrete, else fall back to the truth value
         cur = vals[0]
         for v in vals[1:]:
             t = simp(Zb(cur))
             if t is True:
-                return cur
+                cur = v if is_and else cur
+                if not is_and:
+                    return cur
             elif t is False:
+                if is_and:
+                    return cur
                 cur = v
             else:
-                return simp(z3.Or(*[Zb(x) for x in vals]))
+                return simp(z3.And(*[Zb(x) for x in vals]) if is_and else z3.Or(*[Zb(x) for x in vals]))
         return cur
 
     def e_Compare(self, n):
@@ -1318,7 +1326,7 @@ class Evaluator:
         return simp(z3.If(zb > 0, r, z3.If(r == 0, r, r + zb)))
 
     def arr_binop(self, op, a, b, n):
-        if isinstance(op, ast.Mult):
+        if isinstance(op, ast.Mult) and getattr(self.ex.contract, "lazy_products", True):
             fa = a.factors if isinstance(a, Prod) else [a]
             fb = b.factors if isinstance(b, Prod) else [b]
             if all(isinstance(x, Arr) for x in fa + fb):
